@@ -3,5 +3,5 @@
 set -u
 here="$(cd "$(dirname "$0")" && pwd)"
 . "$here/env.sh"
-for b in mccheck mcsched; do "$here/build.sh" $b || exit 1; done
+for b in mccheck mcsched mcrace; do "$here/build.sh" $b || exit 1; done
 echo setup ok
